@@ -101,7 +101,7 @@ theorem run_ret_end {e : EvId} {pr : ProcRec St} (h : KI (some 0) s a) (hph : a.
   have hne : e ≠ 0 := ne_of_cbs c2 hpe.2.1 (by simp)
   refine ⟨⟨?_, ?_⟩, v, ?_⟩
   · refine h.k.finish pt htag ?_ rfl rfl rfl ?_ rfl rfl rfl rfl ?_
-      (k2 (by omega) (by have := ProcTag.ne pt2 pt (by omega); simpa using this))
+      (k2 (by omega) (by simp))
       (fun seq hs => k4 seq hs (by omega)
         (by have := ProcTag.ne (show ProcTag s (a.tmp seq) (2 + seq) from h.k.ptm seq hs) pt (by omega)
             simpa [kernOf] using this))
